@@ -80,6 +80,11 @@ CHECKS = {
         text="Real ServantProxy callers (1/8/64, two-way and one-way, tcp and ssl endpoints) run against peers that refuse, black-hole (full accept backlog), accept and stay silent, read and stay silent, reply after 0.5/0.9/1.0(+-400us)/1.1/3x the deadline, close or reset at every point, send four kinds of garbage or never read 1 MiB requests; deadlines come from the proxy timeout, the per-call client timeout and the context deadline. A call must return within deadline + dial bound + 2 s (an overrun only counts when three isolated replays exceed it too), the in-flight counter, pending-reply tables and manager counter must return to their previous values, and after the peer heals a 20-call control batch must succeed with its own tokens.",
         note="Inherently wall-clock; mitigated by the generous slack and replay confirmation. 'Never returns' is a bounded watchdog (bound + 30 s).",
         design="DESIGN.md §4 C09"),
+    "C11": dict(
+        technique="runtime monitor: connection ledger of a scripted server joined by token with call outcomes/latencies of a real ServantProxy; transport probe to order calls after the client registered the close",
+        text="A scripted server that answers everything it receives closes connections after a response, when idle, abortively, by restart on the same port, after the reconnect notice (also keeping the noticed connection open for a while), right after accept, and goes down while a call is attempted; after each close the monitor waits until the client registered it and issues 1 or 8 concurrent calls after delays on both sides of the sender goroutine's 1 s poll, over many cycles, followed by sequential follow-up calls. Each call must succeed with its own token within half its timeout, its request must arrive exactly once, never on a connection announced as closing, no call may hang, and no further connection may be opened while the current one is healthy.",
+        note="Calls racing with the close itself are outside the verdict. Interleavings of the client's sender/receiver goroutines are those that occur over the repeated cycles.",
+        design="DESIGN.md §4 C11"),
 }
 
 NOT_BUILT_REASON = "check not built yet in this session (runtime-monitoring design exists in DESIGN.md §4; machinery in progress) — not claimed until its monitor runs silent on the unchanged tree"
